@@ -452,5 +452,7 @@ int main(int argc, char **argv)
   c15::register_text();
   c15::register_conv();
   c15::register_locale();
+  c15::register_state();
+  c15::register_env();
   return vrt::run(argc, argv);
 }
